@@ -133,9 +133,12 @@ def do(op: dict) -> str:
     if o in ("sweep", "evalsweep", "initvalues"):
         p = PROBLEMS[op["id"]]
         kind = "pi" if o == "evalsweep" else "vi"
-        key = (op["id"], op["maxbs"], kind)
+        # the solver is constructed with the requested discount factor (the user-facing route: gamma travels through the configuration),
+        # and the sweep below is the solver's own `_iteration_step`, which reads `self.gamma` and `self.values`
+        gstr = op.get("gamma", "1/2")
+        key = (op["id"], op["maxbs"], kind, gstr)
         if key not in SWEEPERS:
-            SWEEPERS[key] = solver_class(kind)(p, gamma=0.5, epsilon=0.01, max_batch_size=op["maxbs"], verbose=0)
+            SWEEPERS[key] = solver_class(kind)(p, gamma=float(Fraction(gstr)), epsilon=0.01, max_batch_size=op["maxbs"], verbose=0)
         sv = SWEEPERS[key]
         hdr = f"n={p.n_states} maxbs={op['maxbs']} dev={sv.n_devices} "
         if o == "initvalues":
@@ -143,14 +146,12 @@ def do(op: dict) -> str:
         g = jnp.array(float(Fraction(op["gamma"])))
         V = jnp.array([float(Fraction(x)) for x in op["V"]], dtype=jnp.float64)
         if o == "sweep":
-            sv.gamma = g
             sv.values = V
-            new = sv._update_values(sv.batched_states, p.action_space, p.random_event_space, g, V)
+            new, _conv = sv._iteration_step()
             pol = sv._extract_policy()
             assert new.shape == (p.n_states,) and pol.shape == (p.n_states, p.action_space.shape[1])
             return hdr + (f"values={fvals(new)} policy={policy_idx(p, pol)} span={frac(Fraction(float(sv._get_span(new, V))))} "
                           f"maxdiff={frac(Fraction(float(sv._get_max_diff(new, V))))}")
-        sv.gamma = g
         pol = jnp.asarray(np.asarray(p.action_space)[np.array(op["pol"], dtype=int)])
         new = sv._calculate_policy_values(pol, V)
         assert new.shape == (p.n_states,)
